@@ -373,8 +373,13 @@ func (c comp) Gen(r *rand.Rand, tier string, emit func([]string)) {
 			if r.Intn(2) == 0 {
 				seq = append(seq, "racedown", "up")
 			}
-		} else if seq[0] == configs[0] && r.Intn(4) == 0 {
+		} else if seq[0] == configs[0] && r.Intn(3) == 0 {
 			seq = append(seq, "down", fmt.Sprintf("adv %d", D), fmt.Sprintf("adv %d", G), "up")
+			if r.Intn(2) == 0 {
+				// the failback's callback fails next to a healthy partner, then time passes
+				seq = append(seq, "cb fail", fmt.Sprintf("adv %d", FB), fmt.Sprintf("adv %d", G),
+					fmt.Sprintf("adv %d", 100*(1+r.Intn(80))))
+			}
 		}
 		for j := 0; j < n; j++ {
 			if r.Intn(6) == 0 {
